@@ -45,6 +45,9 @@ mod types {
     // .. and over the name `Table` really spells: a container rename holding the quote characters, `Table` without an attribute of its own
     #[derive(Iden)] #[iden = "led`ger\"x"] pub enum QuoteInContainer { Table, Plain }
     #[derive(IdenStatic, Clone, Copy)] #[iden(rename = "led`ger\"x")] pub enum QuoteInContainerStatic { Table, Plain }
+    // a container rename is taken VERBATIM (not snake_cased) for `Table`
+    #[derive(Iden)] #[iden = "UserAccount"] pub enum VerbatimContainer { Table, Col }
+    #[derive(IdenStatic, Clone, Copy)] #[iden(rename = "UserAccount2")] pub enum VerbatimContainerStatic { Table, Col }
     #[derive(Iden)] pub struct UnitStruct;
     #[derive(Iden)] pub struct HTTPUnitV2;
     #[derive(Iden)] #[iden = "renamed unit"] pub struct RenamedUnit;
@@ -79,6 +82,8 @@ pub fn search(_obl: &str) -> Vec<Witness> {
     tbl!(Inner); sn!(Inner::Leaf); sn!(Inner::DeepLeafNode);
     name("RenamedTable::Table", Iden::to_string(&RenamedTable::Table), "explicit_table".into()); sn!(RenamedTable::Col);
     name("RenamedTable2::Table", Iden::to_string(&RenamedTable2::Table), "explicit_table2".into()); sn!(RenamedTable2::Col);
+    name("VerbatimContainer::Table", Iden::to_string(&VerbatimContainer::Table), "UserAccount".into()); name("VerbatimContainerStatic::Table", IdenStatic::as_str(&VerbatimContainerStatic::Table).to_string(), "UserAccount2".into());
+    name("QuoteInContainer::Table", Iden::to_string(&QuoteInContainer::Table), "led`ger\"x".into()); name("QuoteInContainerStatic::Table", IdenStatic::as_str(&QuoteInContainerStatic::Table).to_string(), "led`ger\"x".into());
     tbl!(XMLHttpRequest); sn!(XMLHttpRequest::ReadyState); tbl!(snake_already); sn!(snake_already::lower_variant);
     name("UnitStruct", Iden::to_string(&UnitStruct), snake("UnitStruct")); name("HTTPUnitV2", Iden::to_string(&HTTPUnitV2), snake("HTTPUnitV2")); name("RenamedUnit", Iden::to_string(&RenamedUnit), "renamed unit".into());
     // IdenStatic: as_str, AsRef<str> and Iden agree
@@ -94,6 +99,13 @@ pub fn search(_obl: &str) -> Vec<Witness> {
     st!("HTTPLogDef::Table", HTTPLogDef::Table, snake("HTTPLog")); st!("HTTPLogDef::StatusCode", HTTPLogDef::StatusCode, "status_code".to_string());
     // the generated fast path writes the same quoted text as the general identifier quoting
     let mut same = |label: &str, v: &dyn Iden| {
+        // an asymmetric pair too (`[name]`): the closing quote is the RIGHT one
+        {
+            n += 1;
+            let (mut s, mut want) = (String::new(), String::new());
+            v.prepare(&mut s, Quote::from((b'[', b']'))); Alias::new(v.to_string()).prepare(&mut want, Quote::from((b'[', b']')));
+            if s != want { out.push(Witness { property: "C19", input: format!("{label} quote=[]"), observed: format!("prepare writes {s}"), expected: format!("the general quoting {want}") }); }
+        }
         for q in [b'`', b'"'] {
             n += 1;
             let mut s = String::new(); v.prepare(&mut s, Quote::new(q));
